@@ -401,8 +401,9 @@ impl Query {
             history_after.push(current_query);
 
             // store history into current query
-            let (query_before, _) = self.get_query_ref();
+            let (query_before, query_after) = self.get_query_ref();
             query_before.clear();
+            query_after.clear();
             let mut new_query_chars = history.chars().collect();
             query_before.append(&mut new_query_chars);
         }
@@ -415,8 +416,9 @@ impl Query {
             history_before.push(current_query);
 
             // store history into current query
-            let (query_before, _) = self.get_query_ref();
+            let (query_before, query_after) = self.get_query_ref();
             query_before.clear();
+            query_after.clear();
             let mut new_query_chars = history.chars().collect();
             query_before.append(&mut new_query_chars);
         }
